@@ -73,6 +73,7 @@ type Macro struct {
 	Name   string
 	Params []string
 	Body   Expr
+	Pkg    string // package path of the contract file that defines it ("" for /verif/specs)
 }
 
 type Lemma struct {
@@ -407,7 +408,7 @@ func (db *SpecDB) loadItems(items []rawItem, pkgPath string, trusted bool) {
 				continue
 			}
 			name := strings.TrimSpace(head[:k])
-			db.macros[name] = &Macro{Name: name, Params: splitNames(head[k+1 : len(head)-1]), Body: e}
+			db.macros[name] = &Macro{Name: name, Params: splitNames(head[k+1 : len(head)-1]), Body: e, Pkg: pkgPath}
 		case "ghost":
 			// ghost name Sort
 			f := strings.SplitN(rest, " ", 2)
